@@ -66,6 +66,20 @@ func c06Run(c cfgCase) (obs c06Obs, e *Env) {
 	e.Do(Op{Kind: "scope", Bind: "s1"})
 	c.probeAll(e, "s1")
 	obs.Graph = objectGraph(e, n0)
+	// rebuilding the very same collection gives the same verdict and an isomorphic object graph
+	e2 := &Env{W: e.W, Coll: e.Coll, Scopes: map[string]*scopeRec{}, curScope: map[int]string{}, CallScope: map[*kit.Call]string{}}
+	if p, did := kit.Try(func() { e2.Prov, e2.BuildErr = e.Coll.Build() }); did {
+		obs.Fs = append(obs.Fs, Finding{feat("clause", "build-panic", "build", "second"), fmt.Sprint(p)})
+	} else if e2.BuildErr != nil {
+		obs.Fs = append(obs.Fs, Finding{feat("clause", "rebuild-verdict-differs"), fmt.Sprintf("the first Build of the collection succeeded, the second failed: %v", e2.BuildErr)})
+	} else {
+		e2.Do(Op{Kind: "scope", Bind: "s1"})
+		c.probeAll(e2, "s1")
+		if g2 := objectGraph(e2, 0); g2 != obs.Graph {
+			obs.Fs = append(obs.Fs, Finding{feat("clause", "rebuild-wiring-differs"), fmt.Sprintf("second Build of the same collection wires differently:\n  first:  %s\n  second: %s", obs.Graph, g2)})
+		}
+		e2.Do(Op{Kind: "close", Scope: ""})
+	}
 	e.Do(Op{Kind: "close", Scope: ""})
 	return
 }
@@ -314,7 +328,7 @@ func c06Topo(r *mc.Report, n int, orderDev int, shard, nshards int) {
 func init() {
 	mc.Register(&mc.Check{
 		Prop:        "C06",
-		Rule:        "container: all digraphs on <=3 services x all per-target forms {plain, keyed, group} x 2-4 lifetime patterns (each also with every dependency declared optional), the 64 DAGs (+ sampled-by-mask cyclic sets) on 4 services x uniform forms, and 12 configurations with a two-member group whose members have dependencies; (plain-form sets also with one / every dependency declared twice); each x ALL permutations of the registration calls (intra-group order preserved) x canonical and reversed base map-iteration order, plus every single non-identity permutation of one map range during Build (order deviation 1; 2 in thorough for n<=3): one verdict class and one canonical object graph per configuration, and every singleton constructed after the singletons it depends on (group edges included). Graph component: every labelled DAG on <=4 nodes (543) x both base orders (and once with every node's first dependency declared twice) x order deviation 1 (2 thorough): TopologicalSort lists every node once, dependencies first. distinct = (size, forms, verdict) classes.",
+		Rule:        "container: all digraphs on <=3 services x all per-target forms {plain, keyed, group} x 2-4 lifetime patterns (each also with every dependency declared optional), the 64 DAGs (+ sampled-by-mask cyclic sets) on 4 services x uniform forms, and 12 configurations with a two-member group whose members have dependencies; (plain-form sets also with one / every dependency declared twice); each x ALL permutations of the registration calls (intra-group order preserved) x canonical and reversed base map-iteration order, plus every single non-identity permutation of one map range during Build (order deviation 1; 2 in thorough for n<=3): one verdict class and one canonical object graph per configuration (also when the same collection is Built a second time), and every singleton constructed after the singletons it depends on (group edges included). Graph component: every labelled DAG on <=4 nodes (543) x both base orders (and once with every node's first dependency declared twice) x order deviation 1 (2 thorough): TopologicalSort lists every node once, dependencies first. distinct = (size, forms, verdict) classes.",
 		Assume:      []string{"map iteration order is a controlled choice: every `range` over a map in godi is redirected to the explorer", "repeated builds with different hash seeds are subsumed by the enumerated iteration orders"},
 		MinOutcomes: 6,
 		Jobs: func(tier string) []mc.Job {
